@@ -688,9 +688,18 @@ static Type *type_suffix(Token **rest, Token *tok, Type *ty) {
 static Type *pointers(Token **rest, Token *tok, Type *ty) {
   while (consume(&tok, tok, "*")) {
     ty = pointer_to(ty);
-    while (equal(tok, "const") || equal(tok, "volatile") || equal(tok, "restrict") ||
-           equal(tok, "__restrict") || equal(tok, "__restrict__"))
-      tok = tok->next;
+    for (;;) {
+      if (equal(tok, "const") || equal(tok, "volatile") || equal(tok, "restrict") ||
+          equal(tok, "__restrict") || equal(tok, "__restrict__")) {
+        tok = tok->next;
+      } else if (equal(tok, "_Atomic")) {
+        // `T *_Atomic p`: the pointer itself is atomic.
+        ty->is_atomic = true;
+        tok = tok->next;
+      } else {
+        break;
+      }
+    }
   }
   *rest = tok;
   return ty;
